@@ -15,3 +15,60 @@ Definition obs_eqb (a b : obs) : bool :=
 
 Definition model_agrees (n : nat) (chunks : list (list Z)) (o : obs) : bool :=
   obs_eqb (to_obs (run Z (list Z) (fun l => l) (curry Z n) chunks)) o.
+
+(* ---------- map_, filter_, setcol: the L1 model (Model/Functional.v) against the implementation *)
+From Coq Require Import String NArith.
+From DM Require Import Base.PyVal Spec.Nf Spec.Table Spec.Functional Model.Functional.
+
+Definition mkl (ids : list N) (srt : bool) (t : tab) : ltab := {| l_ids := ids; l_sorted := srt; l_tab := t |}.
+Fixpoint nlist_eqb (a b : list N) : bool :=
+  match a, b with
+  | [], [] => true
+  | x :: a', y :: b' => N.eqb x y && nlist_eqb a' b'
+  | _, _ => false
+  end.
+Fixpoint cols_same (a b : list col) : bool :=
+  match a, b with
+  | [], [] => true
+  | x :: a', y :: b' => col_eqv x y && cols_same a' b'
+  | _, _ => false
+  end.
+(* ids, flags, columns in dict order, kinds, cells as Python values *)
+Definition ltab_same (a b : ltab) : bool :=
+  nlist_eqb (l_ids a) (l_ids b) && Bool.eqb (l_sorted a) (l_sorted b) &&
+  Nat.eqb (tlen (l_tab a)) (tlen (l_tab b)) && kind_eqb (tdflt (l_tab a)) (tdflt (l_tab b)) &&
+  cols_same (tcols (l_tab a)) (tcols (l_tab b)).
+Definition res_ltab_same (m obs : res ltab) : bool :=
+  match m, obs with
+  | Ok a, Ok b => ltab_same a b
+  | Raise e1, Raise e2 => exn_eqb e1 e2
+  | _, _ => false
+  end.
+Definition res_col_same (m obs : res col) : bool :=
+  match m, obs with
+  | Ok a, Ok b => dcol_eqv a b
+  | Raise OtherError, _ => true
+  | Raise e1, Raise e2 => exn_eqb e1 e2
+  | _, _ => false
+  end.
+Definition unwrap_tab (r : res fres) : res ltab :=
+  match r with Ok (RTab t) => Ok t | Ok (RCol _) => Raise OtherError | Raise e => Raise e end.
+Definition unwrap_col (r : res fres) : res col :=
+  match r with Ok (RCol c) => Ok c | Ok (RTab _) => Raise OtherError | Raise e => Raise e end.
+
+Definition model_map_dm (tbl : list (row * upd)) (t : ltab) (obs : res ltab) : bool :=
+  res_ltab_same (unwrap_tab (l_map true (fun _ => POther) (tab_rowfun tbl) (ODm t))) obs.
+Definition model_filter_dm (tbl : list (row * bool)) (t : ltab) (obs : res ltab) : bool :=
+  res_ltab_same (unwrap_tab (l_filter true true 1%Z (fun _ => false) (tab_rowpred tbl) (ODm t))) obs.
+Definition model_setcol (name_is_str owner_is_dm : bool) (t : ltab) (n : string) (v : cvalue) (obs : res ltab) : bool :=
+  res_ltab_same (l_setcol name_is_str owner_is_dm t n v) obs.
+Definition model_map_col (tbl : list (val * pyv)) (t : ltab) (name : option string) (c : col) (obs : res col) : bool :=
+  res_col_same (unwrap_col (l_map true (tab_cellfun tbl) (fun _ => []) (OCol t name c))) obs.
+Definition model_filter_col (is_function : bool) (nargs : Z) (tbl : list (val * bool)) (t : ltab) (name : option string)
+  (c : col) (obs : res col) : bool :=
+  res_col_same (unwrap_col (l_filter true is_function nargs (tab_cellpred tbl) (fun _ => false) (OCol t name c))) obs.
+(* guards: a non-callable function, an object that is neither a column nor a DataMatrix *)
+Definition model_guard_map (is_callable : bool) (obs : exn) : bool :=
+  match l_map is_callable (fun _ => POther) (fun _ => []) OOther with Raise e => exn_eqb e obs | Ok _ => false end.
+Definition model_guard_filter (is_callable : bool) (obs : exn) : bool :=
+  match l_filter is_callable true 1%Z (fun _ => false) (fun _ => false) OOther with Raise e => exn_eqb e obs | Ok _ => false end.
